@@ -1,10 +1,11 @@
 #!/bin/bash
+export V=${VERIF:-/verif}; export VERIF=$V
 # cross_matrix.sh [outfile]: every seeded change × every check (16 in parallel). One line per pair.
 out=${1:-/tmp/cross_matrix.txt}
-cd /verif/seeded
-props="$(/verif/bin/upfcheck -list | tr '\n' ' ') C20"
+cd $V/seeded
+props="$($V/bin/upfcheck -list | tr '\n' ' ') C20"
 ls -d */ | sed 's#/##' | xargs -P 14 -I{} bash -c '
   d={}; p=$d/patch.diff; [ -f $d/patch.rebased.diff ] && p=$d/patch.rebased.diff
-  MUT_LINES=1 /verif/scripts/mut.sh $p '"$props"' 2>&1 | grep -E "^(DETECTED|MISSED|UNDECIDED|PATCH-FAILED)|rule=" | sed "s#^#$d #" 
+  MUT_LINES=1 $V/scripts/mut.sh $p '"$props"' 2>&1 | grep -E "^(DETECTED|MISSED|UNDECIDED|PATCH-FAILED)|rule=" | sed "s#^#$d #" 
 ' > $out
 grep -c . $out
